@@ -1,8 +1,10 @@
 #!/bin/sh
-# MANIFEST.setup_cmd: build the harness offline from files on disk only.
+# MANIFEST.setup_cmd: build every engine and the real server binary offline from files on disk only
+# (both are rebuilt from /repo's working tree by every check; this only warms the target directories).
 set -e
 cd "$(dirname "$0")/harness"
 export CARGO_NET_OFFLINE=true
 [ -f Cargo.lock ] || cp /repo/Cargo.lock Cargo.lock
 cargo build --offline --workspace 2>&1 | tail -3
 cargo build --offline --release -p vp-pure 2>&1 | tail -1
+cargo build --offline --manifest-path /repo/Cargo.toml -p sierradb-server --bin sierradb --target-dir "$(pwd)/target-server" 2>&1 | tail -1
